@@ -195,3 +195,23 @@ def cancellation_delivered(chk, rule: str, qual: str, out_key: str, what: str) -
                'is neither an Exception (so it passes except Exception / capture_exceptions) nor handled: the future is never resolved and its waiters hang'),
                node=node, kind='cancellation-delivered')
     chk.ob(rule, f, True, f'{what}: {len(sites)} place(s) where a cancellation can surface examined', kind='cancellation-sites')
+
+
+def outcome_read_after_cancel_test(chk, rule: str, qual: str, what: str) -> None:
+    """``<future>.result()`` / ``.exception()`` raise CancelledError on a cancelled future: each such read on ``self`` or a parameter is
+    taken only where ``cancelled()`` was tested and found false (or inside a handler for CancelledError)."""
+    import ast as _ast
+    from ..model import norm as _norm
+    f = chk.prog.try_func(qual)
+    if f is None:
+        chk.ob(rule, qual, False, f'{qual} not found', kind='cancelled-tested-first')
+        return
+    ff = chk.ctx.facts.analyse(f)
+    n = 0
+    for c in [x for x in _ast.walk(f.node) if isinstance(x, _ast.Call) and isinstance(x.func, _ast.Attribute) and x.func.attr in ('result', 'exception') and not x.args]:
+        recv = ff.canon.key(c.func.value)
+        n += 1
+        nodes = ff.cfg.nodes_containing(c)
+        ok = bool(nodes) and all(('F', f'{recv}.cancelled()') in ff.at_call(m, c) for m in nodes)
+        chk.ob(rule, f, ok, f'{what}: {recv}.{c.func.attr}() is read only after {recv}.cancelled() was found false (it raises CancelledError otherwise)', node=c, kind='cancelled-tested-first')
+    chk.ob(rule, f, n >= 1, f'{what}: {n} outcome read(s) examined', kind='outcome-reads')
